@@ -10,8 +10,9 @@ CONSTANTS
   Dev_NdKeyStr = FALSE
   Dev_NdValIndex = FALSE
   Dev_CsIndex = FALSE
+  Dev_SizeHint = FALSE
   Emit = FALSE
-  Scen = {"deref", "cont", "rsrc", "links", "dest", "kids", "names", "img", "toc"}
+  Scen = {"deref", "cont", "rsrc", "links", "dest", "kids", "names", "img", "toc", "pages"}
 INVARIANTS PcOK Bounded RsrcDepth TotalInv
 PROPERTIES Terminates
 CHECK_DEADLOCK FALSE
